@@ -488,11 +488,19 @@ pub fn c11(c: &mut Ctx, b: &Budget) {
     let policies: Vec<(usize, Vec<(usize, usize)>)> = if b.thorough {
         vec![(1, vec![(1, 1)]), (1, vec![(2, 3)]), (1, vec![(3, 4)]), (2, vec![(1, 2), (2, 3)]), (2, vec![(2, 3), (2, 3), (1, 1)]), (1, vec![(2, 2), (3, 4)]), (3, vec![(1, 1), (2, 2), (2, 3)]), (2, vec![(2, 4), (3, 4), (1, 2)]), (2, vec![(2, 3), (3, 5)])]
     } else { vec![(1, vec![(1, 1)]), (1, vec![(2, 3)]), (2, vec![(1, 2), (2, 3)]), (2, vec![(2, 3), (2, 3), (1, 1)]), (1, vec![(2, 2), (3, 4)]), (2, vec![(3, 4), (2, 3)])] };
-    for (gt, groups) in &policies {
+    for (pi, (gt, groups)) in policies.iter().enumerate() {
         c.begin("sskr");
-        let e = base_envelope(c, 2).wrap_envelope();
+        // the envelope that is split: a bare encrypted (wrapped) subject; an encrypted subject that keeps clear assertions of its own;
+        // an encrypted subject with a clear note added after encryption.  `e` is what a quorum must give back: the decrypted subject.
         let ck = SymmetricKey::new();
-        let enc = e.encrypt_subject(&ck).unwrap();
+        let base = base_envelope(c, 2);
+        let (e, enc) = match pi % 3 {
+            0 => { let w = base.wrap_envelope(); (w.clone(), w.encrypt_subject(&ck).unwrap()) }
+            1 => { let n = if base.is_node() { base.clone() } else { base.add_assertion("kept", "in the clear") };
+                   if n.subject().is_encrypted() || n.subject().is_elided() { let w = base.wrap_envelope(); (w.clone(), w.encrypt_subject(&ck).unwrap()) } else { (n.subject(), n.encrypt_subject(&ck).unwrap()) } }
+            _ => { let w = base.wrap_envelope(); (w.clone(), w.encrypt_subject(&ck).unwrap().add_assertion(known_values::NOTE, "added after encryption")) }
+        };
+        c.count(&format!("split-form:{}", pi % 3));
         let spec = SSKRSpec::new(*gt, groups.iter().map(|(t, n)| SSKRGroupSpec::new(*t, *n).unwrap()).collect()).unwrap();
         let mut rng = c.rng.lib_rng();
         let shares = match guarded(|| enc.sskr_split_using(&spec, &ck, &mut rng)) { Ok(Ok(s)) => s, other => { c.check("split", false, "split", || format!("{:?}", other.map(|r| r.map(|_| ()).map_err(|e| e.to_string())))); c.end(); continue; } };
@@ -584,6 +592,27 @@ pub fn c17(c: &mut Ctx, b: &Budget) {
             match guarded(|| e.add_salt_with_len(n)) { Ok(Ok(s)) => { c.check("short-salt-refused", n >= 8, "short-salt-accepted", || format!("len {}", n)); check_one(c, &s, n, n, "add_salt_with_len"); }
                 Ok(Err(_)) => c.check("short-salt-refused", n < 8, "valid-salt-refused", || format!("len {}", n)), Err(site) => c.check("no-panic", false, "salt-panic", || site) }
         }
+        // the size that counts is the size of the form being salted: the elided, compressed, partly elided and full forms of one
+        // digest get salts proportional to their own sizes, in whatever order they are salted
+        if i % 3 == 0 {
+            let mut forms: Vec<(&str, Envelope)> = vec![("full", e.clone()), ("elided", e.elide()), ("compressed", e.compress().unwrap_or(e.clone())), ("wrapped", e.wrap_envelope())];
+            if let Some(a) = e.assertions().first() { forms.push(("assertion-elided", e.elide_removing_target(a))); }
+            forms.push(("subject-elided", e.elide_removing_target(&e.subject())));
+            c.rng.shuffle(&mut forms);
+            for (name, f) in &forms {
+                let fsize = bytes_of(f).len();
+                let flo = 8usize.max((fsize as f64 * 0.05).ceil() as usize);
+                let fhi = (flo + 8).max((fsize as f64 * 0.25).ceil() as usize);
+                for salted in [guarded(|| f.add_salt()), guarded(|| { let mut r = bc_rand::make_fake_random_number_generator(); f.add_salt_using(&mut r) })] {
+                    if let Ok(sf) = salted {
+                        let new: Vec<Envelope> = sf.assertions_with_predicate(known_values::SALT).into_iter().filter(|a| !f.assertions().iter().any(|x| x.digest() == a.digest())).collect();
+                        let len = new.first().and_then(|a| a.as_object()).and_then(|o| o.extract_subject::<Salt>().ok()).map(|s| s.len());
+                        c.check("salt-length", matches!(len, Some(n) if flo <= n && n <= fhi) && new.len() == 1, "salt-length", || format!("the {} form ({} bytes) got a salt of {:?} bytes, outside {}..={}", name, fsize, len, flo, fhi));
+                    }
+                }
+                c.count("branch:forms-of-one-digest-salted");
+            }
+        }
         // fresh threads: salts drawn on threads that have never salted before are as independent as any others
         if i % 4 == 0 {
             let bytes = bytes_of(&e);
@@ -663,12 +692,15 @@ pub fn c18(c: &mut Ctx, b: &Budget) {
     let through_bytes = |e: &Envelope| -> Envelope { Envelope::from_tagged_cbor_data(bytes_of(e)).unwrap() };
     for i in 0..rounds {
         c.begin("expressions");
-        let f: Function = if i % 2 == 0 { Function::from((i as u64 % 7) + 1) } else { Function::from(FN_NAMES[(i / 2) % FN_NAMES.len()]) };
+        // every constructor: by value, by run-time name, by static name (the const constructors), known with a static / owned name
+        let f: Function = match i % 6 { 0 | 2 => Function::from((i as u64 % 7) + 1), 1 => Function::from(FN_NAMES[(i / 2) % FN_NAMES.len()]), 3 => Function::new_static_named(FN_NAMES[(i / 2) % FN_NAMES.len()]),
+            4 => Function::new_with_static_name((i as u64 % 7) + 1, "staticName"), _ => Function::new_known((i as u64 % 7) + 1, Some(format!("owned{}", i))) };
+        c.count(&format!("function-ctor:{}", i % 6));
         let mut ex = Expression::new(f.clone());
         let np = c.rng.below(4);
         let mut params = vec![];
         for k in 0..np {
-            let p: Parameter = if c.rng.chance(1, 2) { Parameter::from(k as u64 + 1) } else { Parameter::from(PARAM_NAMES[(k + i) % PARAM_NAMES.len()]) };
+            let p: Parameter = match c.rng.below(5) { 0 | 1 => Parameter::from(k as u64 + 1), 2 => Parameter::from(PARAM_NAMES[(k + i) % PARAM_NAMES.len()]), 3 => Parameter::new_static_named(PARAM_NAMES[(k + i) % PARAM_NAMES.len()]), _ => Parameter::new_with_static_name(k as u64 + 1, "staticParam") };
             let v = base_envelope(c, 1);
             ex = ex.with_parameter(p.clone(), v.clone());
             params.push((p, v));
@@ -679,6 +711,9 @@ pub fn c18(c: &mut Ctx, b: &Budget) {
             match guarded(|| Expression::try_from(via.clone())) {
                 Ok(Ok(p)) => {
                     c.check("expression-roundtrip", p == ex && p.function() == &f, "expression-roundtrip", || shape(&via));
+                    // told to expect the very function it was built with
+                    let r = Expression::try_from((via.clone(), Some(&f)));
+                    c.check("expected-function-accepted", r.is_ok(), "expected-function-rejected", || format!("{:?} refused for {}", f, shape(&via)));
                     for (pp, v) in &params { let objs = p.objects_for_parameter(pp.clone()); c.check("parameter-value", objs.iter().any(|o| o.is_identical_to(v)), "parameter-value", || shape(&via)); }
                 }
                 other => c.check("expression-roundtrip", false, "expression-roundtrip", || format!("{:?}", other.map(|r| r.map(|_| ()).map_err(|e| e.to_string())))),
@@ -906,6 +941,51 @@ pub fn c19(c: &mut Ctx, b: &Budget) {
         }
         let got = guarded(|| td.has_type_envelope(decorated_type.clone()));
         c.check("has-type-iff-added", got == Ok(true), "has-type", || "decorated type not found".into());
+        // types are compared by digest: a structured type object that is partly obscured on one side only - in the document, or in
+        // the checker's hand - is still that type
+        {
+            let inner = decorated_type.assertions()[0].clone();
+            let key = SymmetricKey::from_data_ref(hex::decode(KEY1).unwrap()).unwrap();
+            let mut t: HashSet<bc_components::Digest> = HashSet::new(); t.insert(inner.digest().into_owned());
+            let forms: Vec<(&str, Envelope)> = vec![("assertion-elided", decorated_type.elide_removing_set(&t)), ("assertion-compressed", decorated_type.elide_removing_set_with_action(&t, &ObscureAction::Compress)),
+                ("assertion-encrypted", decorated_type.elide_removing_set_with_action(&t, &ObscureAction::Encrypt(key.clone()))), ("whole-elided", decorated_type.elide()), ("whole-compressed", decorated_type.compress().unwrap())];
+            for (name, form) in &forms {
+                // the checker holds the obscured form
+                let got = guarded(|| (td.has_type_envelope(form.clone()), td.check_type_envelope(form.clone()).is_ok()));
+                c.check("has-type-iff-added", got == Ok((true, true)), "has-type", || format!("type object asked about in its {} form: {:?}", name, got));
+                // the document holds the obscured form
+                let td2 = base_t.add_type(form.clone());
+                let got = guarded(|| (td2.has_type_envelope(decorated_type.clone()), td2.check_type_envelope(decorated_type.clone()).is_ok()));
+                c.check("has-type-iff-added", got == Ok((true, true)), "has-type", || format!("type object held in its {} form: {:?}", name, got));
+                c.count("branch:type-object-obscured-on-one-side");
+            }
+            // ... or obscured after it was added
+            let td3 = td.elide_removing_set(&t);
+            let got = guarded(|| td3.has_type_envelope(decorated_type.clone()));
+            c.check("has-type-iff-added", got == Ok(true), "has-type", || "type object partly elided after it was added".into());
+        }
+        // the Attachments container: reading the attachments of an envelope and writing them (back, or onto the bare original)
+        if pre_existing == 0 {
+            match guarded(|| bc_envelope::Attachments::try_from_envelope(&cur)) {
+                Ok(Ok(at)) => {
+                    let back = guarded(|| at.add_to_envelope(cur.clone()));
+                    c.check("container-writes-back", matches!(&back, Ok(x) if x.is_identical_to(&cur) && bytes_of(x) == bytes_of(&cur)), "attachments-container", || format!("writing an envelope's own attachments back changed it: {} -> {:?}", shape(&cur), back.as_ref().map(shape)));
+                    let fresh = guarded(|| at.add_to_envelope(e.clone()));
+                    c.check("container-writes-back", matches!(&fresh, Ok(x) if x.is_identical_to(&cur)), "attachments-container", || format!("writing the attachments onto the bare original does not rebuild the envelope: {:?} vs {}", fresh.as_ref().map(shape), shape(&cur)));
+                    if let Ok(x) = &back { let n = guarded(|| x.attachments().map(|v| v.len()).ok()); c.check("attachments-exact", n == Ok(Some(added.len())), "attachments-count", || format!("{:?} attachments after writing {} back", n, added.len())); import(c, x); }
+                    c.check("container-empty-iff", at.is_empty() == added.is_empty(), "attachments-container", || "is_empty".into());
+                    // a container filled by hand with the same triples writes the same envelope
+                    let mut hand = bc_envelope::Attachments::new();
+                    for (p, v, cf) in &added { hand.add(p.clone(), v, cf.as_deref()); }
+                    let built = guarded(|| hand.add_to_envelope(e.clone()));
+                    c.check("container-writes-back", matches!(&built, Ok(x) if x.is_identical_to(&cur)), "attachments-container", || "a container filled by hand does not rebuild the envelope".into());
+                    for (p, v, cf) in &added { let d = Envelope::new_attachment(p.clone(), v, cf.as_deref()).digest().into_owned(); c.check("container-get", hand.get(&d).is_some() && at.get(&d).map(|a| a.attachment_payload().map(|x| x.is_identical_to(p)).unwrap_or(false)).unwrap_or(false), "attachments-container", || "get".into()); }
+                    if let Some((p, v, cf)) = added.first() { let d = Envelope::new_attachment(p.clone(), v, cf.as_deref()).digest().into_owned(); let r = hand.remove(&d); c.check("container-get", r.is_some() && hand.get(&d).is_none(), "attachments-container", || "remove".into()); hand.clear(); c.check("container-get", hand.is_empty(), "attachments-container", || "clear".into()); }
+                    c.count("branch:attachments-container");
+                }
+                other => c.check("container-reads", false, "attachments-container", || format!("{:?}", other.map(|r| r.map(|_| ()).map_err(|e| e.to_string())))),
+            }
+        }
         let tys = guarded(|| te.types());
         if let Ok(tys) = tys { let distinct: HashSet<_> = tys.iter().map(|t| t.digest().into_owned()).collect(); let want: HashSet<_> = mine.iter().map(|t| t.digest().into_owned()).collect(); c.check("types-exact", distinct == want, "types-exact", || format!("{} vs {}", distinct.len(), want.len())); }
         let gt = guarded(|| te.get_type());
